@@ -41,6 +41,8 @@ def fill_group_relative_indexes(group: "GroupTransaction") -> None:
             other_txn = txn.relative_indexes[offset]
             # other_txn.group_index() = txn.group_index() + offset
             group.group_relative_indexes[other_txn][txn] = offset
+            # txn.group_index() = other_txn.group_index() - offset
+            group.group_relative_indexes[txn].setdefault(other_txn, -offset)
 
 
 # def fill_indexes(group: GroupTransaction):
